@@ -21,6 +21,9 @@
 //                        looks at done()/value()                   -> sub ; sub=v:<n>|exc|false|nomore (event, maybe on a later line)
 //   subr <n> [a]         the same, and the callback re-arms itself from INSIDE the notification (re-entrantly: next(a+1).subscribe(this), ...)
 //                        up to n times, as long as it was given a value
+//   keep [a]             auto n = gen.next(a), kept (only stores the argument)
+//   ktest | knot         bool(n) | !n on the kept object            -> ktest true|false|nomore   (only the first true answer asks the generator)
+//   kawait               consumer coroutine: co_await n on the kept object -> kawait ; kawait=true|false|nomore
 //   call [a]             f = gen(a)                                -> call pending|ready|nomore
 //   fwait | fget         f.wait() (blocking) | non-blocking peek   -> fwait v:<n>|exc|novalue|pending
 //   fbool | fnot         if (f) | if (!f)  (future::operator bool / operator!, blocking)   -> fbool true|false  (has a value or exception)
@@ -410,6 +413,10 @@ struct Case {
     // next access resumes the body (or the generator is destroyed). The harness does not read a stale one (`stale`).
     static constexpr bool is_ref = std::is_reference_v<typename G::future_t::value_type>;
     bool fut_fresh = false;
+    // the kept `auto n = gen.next(a)` object
+    std::optional<typename G::next_awt> kept;
+    std::atomic<bool> kept_true{false};   // a consultation has answered true (next_awt::_state as far as a consumer can know it)
+    bool karg_valid = false;              // no other access has started since `keep a` stored the reference to its argument
     bool stale() const { return is_ref && !fut_fresh; }
 
     // the consumer's callback awaiter (one per case; `_caller` points at it while a subscribe access is outstanding)
@@ -471,6 +478,26 @@ struct Case {
             parked.store(false);
             stuck.store(true);
             ev("anext=nomore");
+        }
+    }
+    // `co_await n` on an lvalue must use n itself as the awaiter ([expr.await]); g++ 12 copies an lvalue awaiter into the frame, so the
+    // three awaiter functions are forwarded to the kept object explicitly (the same calls the standard prescribes)
+    struct kept_ref {
+        typename G::next_awt *n;
+        bool await_ready() { return n->await_ready(); }
+        std::coroutine_handle<> await_suspend(std::coroutine_handle<> h) { return n->await_suspend(h); }
+        bool await_resume() { return n->await_resume(); }
+    };
+    ctask c_kawait() {
+        try {
+            bool b = co_await kept_ref{&*kept};
+            parked.store(false);
+            if (b) kept_true.store(true);
+            ev(b ? "kawait=true" : "kawait=false");
+        } catch (const no_more_values_exception &) {
+            parked.store(false);
+            stuck.store(true);
+            ev("kawait=nomore");
         }
     }
     ctask c_fawait(fut_t *f) {
@@ -544,9 +571,22 @@ struct Case {
             const std::string &op = w[0];
             head << op;
             static const char *const access_ops[] = {"next", "nnext", "anext", "sub", "subr", "call", "while", "begin", "beginc", "inc", "pinc", "for"};
-            if (!gone && gen && std::find_if(std::begin(access_ops), std::end(access_ops), [&](const char *a) { return op == a; }) != std::end(access_ops) &&
-                !busy())
-                fut_fresh = false;   // this access resumes the body (or finds it finished): references handed out before are over
+            static const char *const iter_ops[] = {"begin", "beginc", "inc", "pinc", "for"};
+            auto among = [&](const char *const *b, const char *const *e) { return std::find_if(b, e, [&](const char *a) { return op == a; }) != e; };
+            // a consultation of the kept object is an access unless the object has answered true before (co_await always is one)
+            const bool k_access = kept && (op == "kawait" || ((op == "ktest" || op == "knot") && !kept_true.load()));
+            const bool is_access = (among(std::begin(access_ops), std::end(access_ops)) && (has_iter || !among(std::begin(iter_ops), std::end(iter_ops)))) || k_access;
+            const bool passes = is_access && !gone && gen && !busy();
+            if (passes && k_access && has_arg && !karg_valid) {
+                // the reference stored by keep has been consumed (cleared at a co_yield) or replaced: consulting n now is misuse
+                head << " stale";
+                vh::emit(head.str(), evs);
+                continue;
+            }
+            if (passes) {
+                fut_fresh = false;    // this access resumes the body (or finds it finished): references handed out before are over
+                karg_valid = false;
+            }
             if (op == "script") {
                 for (std::size_t i = 1; i < w.size(); ++i) {
                     Act a{w[i][0], w[i].size() > 1 ? atoi(w[i].c_str() + 1) : 0};
@@ -559,6 +599,7 @@ struct Case {
                 std::string fs = !fut ? "none" : stale() ? "stale" : item_of(*fut);
                 gone = true;
                 it.reset();
+                kept.reset();
                 gen.reset();
                 fut.reset();
                 int once = 0, multi = 0;
@@ -620,6 +661,26 @@ struct Case {
             } else if (op == "value") {
                 if (inflight()) head << " busy";
                 else head << " " << value_str();
+            } else if (op == "ktest" || op == "knot" || op == "kawait") {
+                if (!kept) head << " nokept";
+                else if (op == "kawait") {
+                    if (busy()) head << " busy";
+                    else {
+                        parked.store(true);
+                        c_kawait();
+                    }
+                } else if (!kept_true.load() && busy()) head << " busy";
+                else {
+                    std::optional<Blocking> blk;     // (a re-consultation does not ask the generator: the helper thread stays out)
+                    if (!kept_true.load()) blk.emplace();
+                    try {
+                        bool b = op == "ktest" ? bool(*kept) : !(!*kept);
+                        if (b) kept_true.store(true);
+                        head << (b ? " true" : " false");
+                    } catch (const no_more_values_exception &) {
+                        head << " nomore";
+                    }
+                }
             } else if (op == "active") {
                 if (inflight()) head << " busy";
                 else head << " " << (*gen ? 1 : 0);
@@ -667,6 +728,12 @@ struct Case {
                 }
             } else if (busy()) {
                 head << " busy";
+            } else if (op == "keep") {
+                kept.reset();
+                if constexpr (has_arg) kept.emplace(gen->next(arg_of(w)));
+                else kept.emplace(gen->next());
+                kept_true.store(false);
+                karg_valid = true;
             } else if (op == "next") {
                 head << " " << sync_next(&arg_of(w));
             } else if (op == "nnext") {
